@@ -1,7 +1,8 @@
 (** Unary maps, scalar forms and their side condition "the new default is the map applied to the
-    old default" on the concrete carrier [xval]; where the code computes the default with a Python
-    scalar operation that differs from the torch operation, the refutation and the guarded
-    positive statement (F16: division by a zero scalar / zero default). *)
+    old default" on the concrete carrier [xval].  Since the repairs fc474fc / fd2047f / ad94aa4 in
+    /repo the default of div, relu_, maximum, exp/log is computed like torch computes an element, so
+    the side condition holds for every default (0, inf, NaN included); the former Python-scalar
+    behaviour is kept only as [*_old] definitions with the theorems that refuted it. *)
 From Coq Require Import List Arith Lia PeanoNat Bool PArith QArith Qcanon.
 Import ListNotations.
 Require Import Fggs.Model.Axis Fggs.Model.XVal Fggs.Model.PTensor Fggs.Model.PTensorCheck.
@@ -35,13 +36,18 @@ Proof.
   apply Qceq_alt in E. subst. reflexivity.
 Qed.
 
-Example py_relu_nan_refuted : py_max (XF 0) XNaN <> xrelu XNaN.
+(** record of the behaviour before fd2047f: [max(0, default)] in Python drops a NaN default *)
+Definition relu_default_old (d : xval) : xval := py_max (XF 0) d.
+Definition maximum_default_old (dt du : xval) : xval := py_max dt du.
+Theorem relu_default_old_refuted : relu_default_old XNaN <> xrelu XNaN.
+Proof. vm_compute. discriminate. Qed.
+Theorem maximum_default_old_refuted : maximum_default_old (XF 1) XNaN <> xmax (XF 1) XNaN.
 Proof. vm_compute. discriminate. Qed.
 
-(** guard under which the Python-computed default equals the torch map of the default *)
-Definition unary_guard (op : nat) (sc : list xval) (d : xval) : bool :=
+(** clamp_min / clamp_max still use Python's max / min on the default: they agree with torch unless
+    the *scalar argument* is NaN *)
+Definition unary_guard (op : nat) (sc : list xval) : bool :=
   match op with
-  | 12 => negb (xisnan d)
   | 13 | 14 => negb (xisnan (nth 0 sc XNaN))
   | _ => true
   end.
@@ -49,9 +55,9 @@ Definition unary_guard (op : nat) (sc : list xval) (d : xval) : bool :=
 Definition is_unary (op : nat) : bool := (10 <=? op) && (op <=? 23).
 
 (** C06 (unary maps and scalar forms): the model of every unary map / scalar operation denotes the
-    pointwise map of the denotation *)
+    pointwise map of the denotation, for every default *)
 Theorem unary_refines op sc (t r : pt) next f idx :
-  is_unary op = true -> unary_guard op sc (default t) = true ->
+  is_unary op = true -> unary_guard op sc = true ->
   model_op op [] sc [t] next = Ok r -> unary_fn op sc = Some f ->
   denote xval r idx = f (denote xval t idx).
 Proof.
@@ -59,16 +65,15 @@ Proof.
   apply Nat.leb_le in U1, U2.
   do 10 (destruct op as [|op]; [lia|]).
   do 14 (destruct op as [|op];
-         [cbn in H, F, G; try (destruct (is0 (nth 0 sc XNaN)); [discriminate|]);
+         [cbn in H, F, G;
           inversion H; inversion F; subst; apply map_refines;
           try reflexivity;
-          try (apply py_relu; apply negb_true_iff; exact G);
           try (apply py_max_xmax; apply negb_true_iff; exact G);
           try (apply py_min_xmin; apply negb_true_iff; exact G)|]).
   lia.
 Qed.
 
-(** nan_to_num_ (F1 has been repaired in /repo: neginf is passed on) *)
+(** nan_to_num_ *)
 Theorem nan_to_num_refines na sc (t r : pt) next idx :
   model_op 24 na sc [t] next = Ok r ->
   denote xval r idx =
@@ -76,47 +81,80 @@ Theorem nan_to_num_refines na sc (t r : pt) next idx :
               (denote xval t idx).
 Proof. intros H. cbn in H. inversion H; subst. apply map_refines. reflexivity. Qed.
 
-(** F16: dividing by the scalar 0 -- the dense operation is defined (x / 0 = +-inf or NaN) but the
-    code computes [self.default / other] in Python and raises ZeroDivisionError *)
 Definition t_ex : pt :=
   mkPT (fun idx => match idx with [0] => XF 1 | _ => XF (Q2Qc (Qmake 3 2)) end)
        [(1%positive, 2)] [Phys 1 2; Phys 1 2] (XF 1).
-
-Theorem div_scalar_zero_refuted :
-  model_op 18 [] [XF 0] [t_ex] 2 = Fail ZeroDivisionError /\
-  exists shp f, spec_op 18 [] [XF 0] [t_ex] = OVal shp f /\ f [0; 1] = XPInf.
-Proof. split; [reflexivity|]. eexists. eexists. split; [reflexivity|]. vm_compute. reflexivity. Qed.
-
-(** F16, tensor form: a divisor whose default is 0 *)
 Definition u_ex : pt :=
   mkPT (fun idx => match idx with [0] => XF 1 | _ => XF (Q2Qc (Qmake 2 1)) end)
        [(5%positive, 2)] [Phys 5 2; Phys 5 2] (XF 0).
-
-Theorem div_default_zero_refuted :
-  model_op 33 [] [] [t_ex; u_ex] 9 = Fail ZeroDivisionError /\
-  exists shp f, spec_op 33 [] [] [t_ex; u_ex] = OVal shp f /\ f [0; 1] = XPInf.
-Proof. split; [reflexivity|]. eexists. eexists. split; [reflexivity|]. vm_compute. reflexivity. Qed.
-
-(** positive statement under the guard: a non-zero scalar divisor *)
-Theorem div_scalar_refines s (t r : pt) next idx :
-  is0 s = false -> model_op 18 [] [s] [t] next = Ok r ->
-  denote xval r idx = xdiv (denote xval t idx) s.
-Proof.
-  intros G H. apply (unary_refines 18 [s] t r next (fun x => xdiv x s) idx); try reflexivity; exact H.
-Qed.
-
-Example unary_ex : exists r, model_op 12 [] [] [t_ex] 2 = Ok r /\ denote xval r [1; 1] = XF (Q2Qc (Qmake 3 2)).
-Proof. eexists. split; [reflexivity|]. vm_compute. reflexivity. Qed.
-
-(** F22: relu_ / maximum compute the default with Python's max, which drops a NaN default *)
 Definition t_nan : pt :=
   mkPT (fun idx => match idx with [0] => XF 1 | _ => XF (Q2Qc (Qmake (-2) 1)) end)
        [(1%positive, 2)] [Phys 1 2; Phys 1 2] XNaN.
 
-Theorem relu_nan_default_refuted :
-  exists r, model_op 12 [] [] [t_nan] 2 = Ok r /\
-            denote xval r [0; 1] = XF 0 /\ xrelu (denote xval t_nan [0; 1]) = XNaN.
+(** division by a scalar, for EVERY scalar (0, inf, NaN included) and every default *)
+Theorem div_scalar_refines s (t r : pt) next idx :
+  model_op 18 [] [s] [t] next = Ok r ->
+  denote xval r idx = xdiv (denote xval t idx) s.
+Proof.
+  intros H. apply (unary_refines 18 [s] t r next (fun x => xdiv x s) idx); try reflexivity; exact H.
+Qed.
+
+Example div_scalar_zero_ex :
+  exists r, model_op 18 [] [XF 0] [t_ex] 2 = Ok r /\ denote xval r [0; 1] = XPInf /\ denote xval r [0; 0] = XPInf.
 Proof. eexists. split; [reflexivity|]. split; vm_compute; reflexivity. Qed.
 
-Theorem maximum_nan_default_refuted : py_max (XF 1) XNaN = XF 1 /\ xmax (XF 1) XNaN = XNaN.
+(** relu_, for every default (NaN propagates) *)
+Theorem relu_refines (t r : pt) next idx :
+  model_op 12 [] [] [t] next = Ok r -> denote xval r idx = xrelu (denote xval t idx).
+Proof.
+  intros H. apply (unary_refines 12 [] t r next xrelu idx); try reflexivity; exact H.
+Qed.
+
+Example relu_nan_default_ex :
+  exists r, model_op 12 [] [] [t_nan] 2 = Ok r /\ denote xval r [0; 1] = XNaN /\ denote xval r [1; 1] = XF 0.
+Proof. eexists. split; [reflexivity|]. split; vm_compute; reflexivity. Qed.
+
+Example unary_ex : exists r, model_op 12 [] [] [t_ex] 2 = Ok r /\ denote xval r [1; 1] = XF (Q2Qc (Qmake 3 2)).
+Proof. eexists. split; [reflexivity|]. vm_compute. reflexivity. Qed.
+
+(** * log / log1p / exp: the helpers [_log], [_log1p], [_exp] of /repo (ad94aa4) against torch.
+    The transcendental function itself is a parameter ([lnpos q] = log q for q > 0, as an [xval]);
+    what is proved is that the helper treats every special default as torch treats an element. *)
+Section Log.
+Variable lnpos : Qc -> xval.
+
+(** torch.log on an element *)
+Definition xlog (a : xval) : xval :=
+  match a with
+  | XF q => match qsign q with Gt => lnpos q | Eq => XNInf | Lt => XNaN end
+  | XPInf => XPInf
+  | XNInf | XNaN => XNaN
+  end.
+
+(** [_log(x) = log(x) if x > 0 else (-inf if x == 0 else nan)], [math.log(inf) = inf] *)
+Definition py_log (a : xval) : xval :=
+  if xltb (XF 0) a then (match a with XF q => lnpos q | _ => XPInf end)
+  else if xeq_num a (XF 0) then XNInf else XNaN.
+
+Lemma py_log_xlog a : py_log a = xlog a.
+Proof.
+  destruct a as [q| | |]; try reflexivity.
+  unfold py_log, xlog, xltb, xeq_num, xleb, xltb, qsign. simpl.
+  pose proof (Qccompare_antisym q 0%Qc) as A.
+  destruct (Qccompare q 0%Qc) eqn:E; simpl in A; rewrite <- A; reflexivity.
+Qed.
+
+(** log / log_ : pointwise for every default *)
+Theorem log_refines (t : pt) idx :
+  denote xval (pt_map xval xlog (py_log (default t)) t) idx = xlog (denote xval t idx).
+Proof. apply map_refines. apply py_log_xlog. Qed.
+
+(** the behaviour before ad94aa4: [log(default) if default else -inf] raised ValueError on a
+    negative or -inf default; as a partial function: *)
+Definition py_log_old (a : xval) : option xval :=
+  if xeq_num a (XF 0) then Some XNInf
+  else if xltb (XF 0) a then Some (match a with XF q => lnpos q | _ => XPInf end)
+  else if xisnan a then Some XNaN else None.          (* math.log(nan) = nan; negative: ValueError *)
+Theorem py_log_old_refuted : py_log_old XNInf = None /\ xlog XNInf = XNaN.
 Proof. split; reflexivity. Qed.
+End Log.
